@@ -64,6 +64,13 @@ class Gen(object):
         if kind == "doc":
             op["name"] = ""
             op["args_ok"] = True
+        if kind == "sec":
+            # the Section type plays no role for the tree structure (and is not in the model);
+            # it varies so that code comparing whole objects or (name, type) pairs is exercised
+            op["stype"] = r.choice(["t", "t", "u"])
+        if kind != "doc" and op["name"] == "":
+            # "no name" reaches the library as None or as the empty string (the model treats both alike)
+            op["empty"] = r.choice(["none", "str"])
         return op
 
     def history(self):
@@ -101,7 +108,8 @@ class Gen(object):
             elif choice < 0.92:
                 ops.append({"op": "reorder", "x": child(), "idx": r.randrange(-4, 5)})
             elif choice < 0.97:
-                ops.append({"op": "rename", "x": child(), "new": r.choice(NAMES)})
+                ops.append({"op": "rename", "x": child(), "new": r.choice(NAMES),
+                            "empty": r.choice(["none", "str"])})
             else:
                 self.idn += 1
                 ops.append({"op": "new_id", "x": P(r, "sec", "prop", "doc"),
@@ -152,16 +160,16 @@ class World(object):
         if kind == "construct":
             k = op["kind"]
             parent = None if op["parent"] is None else O[op["parent"]]
-            name = op["name"] or None
+            name = op["name"] or (None if op.get("empty", "none") == "none" else "")
             if k == "doc":
                 obj = odml.Document(oid=op["oid"])
             elif k == "sec":
                 bad = (3, 1) if not op["args_ok"] else None
                 if op.get("via") == "create" and parent is not None and op["args_ok"] \
                         and hasattr(parent, "create_section"):
-                    obj = parent.create_section(name=name, type="t", oid=op["oid"])
+                    obj = parent.create_section(name=name, type=op.get("stype", "t"), oid=op["oid"])
                 else:
-                    obj = odml.Section(name=name, type="t", oid=op["oid"], parent=parent,
+                    obj = odml.Section(name=name, type=op.get("stype", "t"), oid=op["oid"], parent=parent,
                                        sec_cardinality=bad)
             else:
                 bad = (3, 1) if not op["args_ok"] else None
@@ -194,7 +202,7 @@ class World(object):
         elif kind == "reorder":
             O[op["x"]].reorder(op["idx"])
         elif kind == "rename":
-            O[op["x"]].name = op["new"] or None
+            O[op["x"]].name = op["new"] or (None if op.get("empty", "none") == "none" else "")
         else:
             raise ValueError(kind)
 
